@@ -56,7 +56,7 @@ Example C10_inv_example :
   let M : mat Z := [[Some 0; Some 50102]; [Some 50102; Some 0]]%Z in
   Inv 0%Z src [[1;7];[2;8]]%Z [[5]%Z] (mkRdms [[1;7];[2;8]]%Z [([5]%Z, M)] [0;1]%Z [0]%Z).
 Proof.
-  cbv zeta. split; cbn [pats items].
+  cbv zeta. split; [split|split; reflexivity]; cbn [pats items].
   - constructor; [left; reflexivity|]. constructor; [right; left; reflexivity|constructor].
   - constructor; [|constructor]. split; [left; reflexivity|].
     intros i j Hi Hj. cbn in Hi, Hj.
